@@ -372,6 +372,111 @@ fn raw_and_multipart(ctx: &Ctx, srv: &LiveServer<zoo9::ZooCtx>, cn: &Cn, samples
     }
 }
 
+// ------------------------------------------------------------------ HTTP/2 body framing
+
+/// The same bodies over HTTP/2 (prior knowledge, hand-written client): every composition of the
+/// body into up to three DATA frames, with empty DATA frames before, between and after them, with
+/// END_STREAM on the last data-carrying frame or on a trailing empty one, with and without a
+/// content-length header. The echo must be the body.
+fn h2_bodies(ctx: &Ctx, cn: &Cn) -> Value {
+    use vh::h2raw::*;
+    let srv = LiveServer::start(zoo9::api(&[Some(100_000)]), zoo9::ZooCtx::default(), ServerOpts { default_body_max: 4096, ..Default::default() }).unwrap_or_else(|e| machinery_failure(&e));
+    let two = serde_json::to_string(&Two { a: "gear &=%".into(), b: 7, c: Some(Color::Green) }).unwrap();
+    let raw_body: Vec<u8> = (0..=40u8).collect();
+    // (path, content type, body, expected echo as JSON)
+    let targets: Vec<(&str, &str, Vec<u8>, Value)> = vec![
+        ("/lim/100000/raw", "application/octet-stream", raw_body.clone(), json!({"len": raw_body.len(), "fnv": zoo9::fnv(&raw_body)})),
+        ("/j/two", "application/json", two.clone().into_bytes(), serde_json::from_str(&two).unwrap()),
+        ("/u/two", "application/x-www-form-urlencoded", b"a=gear+%26%3D%25&b=7&c=green".to_vec(), serde_json::from_str(&two).unwrap()),
+    ];
+    let requests = AtomicU64::new(0);
+    par_for(targets.len(), targets.len(), 0, |ti| {
+    let (path, ct, body, want) = &targets[ti];
+    let mut conn = match connect_plain(srv.addr) {
+        Ok(c) => c,
+        Err(e) => machinery_failure(&format!("h2 connect: {e}")),
+    };
+    let mut stream_id = 1u32;
+    {
+        let n = body.len();
+        let mut comps: Vec<Vec<usize>> = vec![vec![n]];
+        for a in [1usize, n / 2, n - 1] {
+            comps.push(vec![a, n - a]);
+            for b in [1usize, (n - a) / 2] {
+                if b > 0 && a + b < n {
+                    comps.push(vec![a, b, n - a - b]);
+                }
+            }
+        }
+        comps.sort();
+        comps.dedup();
+        for comp in &comps {
+            // where empty DATA frames go: a bit mask over the gaps (before first .. after last)
+            for empties in 0..(1u32 << (comp.len() + 1)) {
+                for (with_cl, end_on_empty) in [(true, false), (false, false), (false, true), (true, true)] {
+                    if end_on_empty && empties & (1 << comp.len()) != 0 {
+                        continue; // the trailing empty frame is the END_STREAM one in that variant
+                    }
+                    requests.fetch_add(1, Ordering::Relaxed);
+                    cn.requests.fetch_add(1, Ordering::Relaxed);
+                    if stream_id > 60_000 || conn.eof {
+                        conn = match connect_plain(srv.addr) {
+                            Ok(c) => c,
+                            Err(e) => machinery_failure(&format!("h2 reconnect: {e}")),
+                        };
+                        stream_id = 1;
+                    }
+                    let sid = stream_id;
+                    stream_id += 2;
+                    let cl = n.to_string();
+                    let mut hdrs: Vec<(&str, &str)> = vec![("content-type", ct)];
+                    if with_cl {
+                        hdrs.push(("content-length", &cl));
+                    }
+                    let mut ok_io = conn.send_headers(sid, "PUT", path, &hdrs, false).is_ok();
+                    let mut pos = 0usize;
+                    for (i, len) in comp.iter().enumerate() {
+                        if empties & (1 << i) != 0 {
+                            ok_io &= conn.send_data(sid, &[], false).is_ok();
+                        }
+                        let last = i + 1 == comp.len();
+                        let trailing_empty = empties & (1 << comp.len()) != 0;
+                        let end = last && !end_on_empty && !trailing_empty;
+                        ok_io &= conn.send_data(sid, &body[pos..pos + len], end).is_ok();
+                        pos += len;
+                    }
+                    if empties & (1 << comp.len()) != 0 {
+                        ok_io &= conn.send_data(sid, &[], true).is_ok();
+                    } else if end_on_empty {
+                        ok_io &= conn.send_data(sid, &[], true).is_ok();
+                    }
+                    let r = conn.read_response(sid, T, &mut |s, d| tcp_timeout(s, d));
+                    let case = json!({"kind":"live_request","carrier":"h2","what": format!("{path} DATA frames {comp:?}, empty frames mask {empties:b}, content-length {with_cl}, END_STREAM on an empty frame {end_on_empty}")});
+                    let good = match &r {
+                        Ok(resp) => resp.status == Some(200) && serde_json::from_slice::<Value>(&resp.body).map(|j| if path.ends_with("/raw") { j["len"] == want["len"] && j["fnv"] == want["fnv"] } else { &j == want }).unwrap_or(false),
+                        Err(_) => false,
+                    };
+                    if !good || !ok_io {
+                        ctx.report(Violation {
+                            sig: json!({"kind":"handler_received_different_value","carrier":"h2","endpoint": path, "empty_data_frames": empties != 0 || end_on_empty}),
+                            case,
+                            expected: json!({"status": 200, "echo": want}),
+                            observed: match &r { Ok(resp) => json!({"status": resp.status, "body": String::from_utf8_lossy(&resp.body), "reset": resp.reset}), Err(e) => json!(e) },
+                        });
+                        // start over on a fresh connection
+                        conn.eof = true;
+                    } else {
+                        cn.nontrivial.fetch_add(1, Ordering::Relaxed);
+                    }
+                }
+            }
+        }
+    }
+    });
+    let requests = requests.load(Ordering::Relaxed);
+    json!({"requests": requests, "rule": "3 endpoints (untyped, typed JSON, typed url-encoded) x compositions of the body into <=3 DATA frames x every placement of empty DATA frames in the gaps x {content-length header, none} x {END_STREAM on the last data frame, on a trailing empty frame}; hand-written HTTP/2 client, prior knowledge, many streams per connection"})
+}
+
 // ------------------------------------------------------------------ truncated bodies
 
 /// A body that stops before its declared end (the client half-closes, closes or resets) was not
@@ -731,6 +836,8 @@ fn main() {
                 }
             } else if case["carrier"] == json!("truncated") {
                 truncated_bodies(ctx, &cn);
+            } else if case["carrier"] == json!("h2") {
+                h2_bodies(ctx, &cn);
             } else {
                 raw_and_multipart(ctx, &srv, &cn, &Samples::new(0));
             }
@@ -753,6 +860,7 @@ fn main() {
     });
     raw_and_multipart(&ctx, &srv, &cn, &samples);
     let truncated = truncated_bodies(&ctx, &cn);
+    let h2 = h2_bodies(&ctx, &cn);
     let tls = vec![tls_slice(&ctx, 3, &cn, &samples), if ctx.tier == Tier::Thorough { tls_slice(&ctx, 4, &cn, &samples) } else { json!(null) }];
     // versioned routes whose versions differ in body content type / parameter type: valid requests
     // at every version are delivered to the endpoint serving that version
@@ -801,6 +909,7 @@ fn main() {
         "value_cases": n, "by_carrier": *cn.by_carrier.lock().unwrap(), "handler_invocations_counted": entered,
         "tls_slice": tls,
         "truncated_bodies": truncated,
+        "http2_bodies": h2,
         "schedules": sched_info, "schedule_events": sched_events.load(Ordering::Relaxed),
         "caps_hit": caps, "exhaustive": caps.is_empty(),
         "samples": samples.take(),
